@@ -52,7 +52,10 @@ def materialize_defaults(value: Any) -> None:
   """
 
   def traverse(node, state: daglish.State):
-    if isinstance(node, config.Buildable):
+    # A TaggedValue's `tags` parameter is filled in by `__build__` itself.
+    if isinstance(node, config.Buildable) and not isinstance(
+        node, config.TaggedValueCls
+    ):
       for index, arg in enumerate(node.__signature_info__.parameters.values()):
         if arg.default is arg.empty:
           continue
